@@ -157,3 +157,24 @@ Proof.
       destruct (negb (le_times_inf (length src) (length (d0 :: dest')) maxc)); [discriminate|].
       apply randomly_loop_connected in H1; [|reflexivity]. subst c. unfold connected_set. rewrite nodup_In. reflexivity.
 Qed.
+
+Lemma generated_randomly_each_source_once_and_capped : forall fuel shuffles choices src dest m r c, dest <> [] -> (0 < m)%nat -> NoDup dest ->
+  connect_randomly_gen false fuel shuffles choices src dest (Some m) = GOk r c ->
+  map fst r = src /\ (forall d, count d r <= m) /\ (forall d, In d c <-> 0 < count d r).
+Proof.
+  intros fuel shuffles choices src dest m r c Hd Hm Hn H.
+  destruct (tie_connect_randomly false fuel shuffles choices src dest (Some m)) as (_ & _ & H3).
+  destruct (H3 Hd eq_refl) as (Ht & Hset). rewrite H in Ht. cbn [to_rres] in Ht. symmetry in Ht.
+  split; [exact (randomly_each_source_once choices src dest (Some m) r Ht)|].
+  split; [exact (randomly_respects_max_connects choices src dest m r Hm Hn Ht)|].
+  intros d. rewrite (Hset r c H d). apply connected_set_spec.
+Qed.
+
+Lemma generated_never_asserts_when_feasible : forall fuel shuffles choices src dest m, dest <> [] -> (0 < m)%nat -> NoDup dest ->
+  connect_randomly_gen false fuel shuffles choices src dest (Some m) <> GAssert.
+Proof.
+  intros fuel shuffles choices src dest m Hd Hm Hn H.
+  destruct (tie_connect_randomly false fuel shuffles choices src dest (Some m)) as (_ & _ & H3).
+  destruct (H3 Hd eq_refl) as (Ht & _). rewrite H in Ht. cbn [to_rres] in Ht. symmetry in Ht.
+  exact (randomly_never_asserts choices src dest m Hm Hn Ht).
+Qed.
